@@ -3,4 +3,4 @@
 set -e
 cd "$(dirname "$0")"
 timeout 900 coqc -Q .. "" Extract.v
-ocamlfind ocamlopt -O3 -w -a model.mli model.ml conv.ml fsm_io.ml driver.ml -o ../../bin/modelrun
+ocamlfind ocamlopt -O3 -w -a model.mli model.ml conv.ml fsm_io.ml node_io.ml driver.ml -o ../../bin/modelrun
